@@ -8,6 +8,7 @@ import (
 	"os"
 	"sort"
 	"sync"
+	"sync/atomic"
 	"time"
 
 	"github.com/reugn/go-quartz/quartz"
@@ -22,11 +23,15 @@ type stCall struct {
 // stTrigger behaves like a SimpleTrigger and records every call with the clock reading at the call.
 type stTrigger struct {
 	interval int64
+	slow     bool // computing the fire time takes a moment (user code): widens the loop's pop -> ask-the-trigger -> push step
 	mu       sync.Mutex
 	calls    []stCall
 }
 
 func (t *stTrigger) NextFireTime(prev int64) (int64, error) {
+	if t.slow {
+		spin(30 * time.Microsecond)
+	}
 	res := prev + t.interval
 	t.mu.Lock()
 	t.calls = append(t.calls, stCall{prev, res, quartz.NowNano()})
@@ -36,7 +41,7 @@ func (t *stTrigger) NextFireTime(prev int64) (int64, error) {
 func (t *stTrigger) Description() string { return "st" }
 
 type stJob struct {
-	mu    sync.Mutex
+	mu        sync.Mutex
 	execs     []int64
 	r         *rand.Rand
 	maxMicros int
@@ -82,6 +87,18 @@ func stressRun(args []string) int {
 			viol = append(viol, s)
 		}
 	}
+	for mode := 0; mode < 3; mode++ {
+		for _, api := range []string{"clear", "delete", "pause"} {
+			vs, ok := stressDuringTrigger(mode, api)
+			if ok {
+				evals++
+				dist["events"]["during-trigger:"+api]++
+			}
+			for _, v := range vs {
+				flagV(v)
+			}
+		}
+	}
 	for run := 0; run < *n; run++ {
 		mode := run % 3
 		k := 1 + (run/3)%3
@@ -111,7 +128,7 @@ func stressRun(args []string) int {
 		dets := make([]*quartz.JobDetail, J)
 		events := make([][]apiEvent, J)
 		for j := 0; j < J; j++ {
-			trigs[j] = &stTrigger{interval: int64(time.Duration(3+r.Intn(15)) * time.Millisecond)}
+			trigs[j] = &stTrigger{interval: int64(time.Duration(3+r.Intn(15)) * time.Millisecond), slow: run%2 == 1}
 			jobs[j] = &stJob{r: rand.New(rand.NewSource(*seed*1000 + int64(run*10+j))), maxMicros: 1500}
 			if mode == 1 && run%2 == 1 { // long executions saturate the pool of two workers
 				jobs[j].maxMicros = 9000
@@ -248,3 +265,131 @@ func stressRun(args []string) int {
 	fmt.Printf("stress: %d runs, %d recorded trigger calls + executions, %d violations\n", *n, evals, len(viol))
 	return 0
 }
+
+// ---- API call while the loop is asking a trigger --------------------------------------------------------------------------
+// The loop's pop / classify / ask-the-trigger / push step is one critical section. Here the trigger of a firing job holds the
+// loop inside NextFireTime while Clear / DeleteJob / PauseJob is called: the call must wait for the step to finish (so that it
+// acts on the re-queued entry); once it has returned successfully, the job's trigger is never asked again and nothing of the
+// job is executed (beyond the one execution that was already dequeued) — C08; and the entry pushed by the loop must not
+// resurrect a deleted job — C03 ("only in response to a fire time of its own trigger" of a job that is scheduled).
+
+type holdTrigger struct {
+	interval int64
+	mu       sync.Mutex
+	calls    int
+	hold     bool          // the next call from the loop blocks
+	inside   chan struct{} // signalled when a call is blocked
+	release  chan struct{}
+}
+
+func (t *holdTrigger) NextFireTime(prev int64) (int64, error) {
+	t.mu.Lock()
+	t.calls++
+	h := t.hold
+	t.hold = false
+	t.mu.Unlock()
+	if h {
+		t.inside <- struct{}{}
+		select {
+		case <-t.release:
+		case <-time.After(2 * time.Second):
+		}
+	}
+	return prev + t.interval, nil
+}
+func (t *holdTrigger) Description() string { return "hold" }
+func (t *holdTrigger) n() int              { t.mu.Lock(); defer t.mu.Unlock(); return t.calls }
+
+func stressDuringTrigger(mode int, api string) (viol []string, ok bool) {
+	opts := []quartz.SchedulerOpt{quartz.WithOutdatedThreshold(time.Minute)}
+	switch mode {
+	case 0:
+		opts = append(opts, quartz.WithBlockingExecution())
+	case 1:
+		opts = append(opts, quartz.WithWorkerLimit(2))
+	}
+	s, err := quartz.NewStdScheduler(opts...)
+	must(err)
+	ctx, cancel := context.WithCancel(context.Background())
+	defer cancel()
+	s.Start(ctx)
+	defer func() {
+		s.Stop()
+		wctx, wc := context.WithTimeout(context.Background(), 3*time.Second)
+		s.Wait(wctx)
+		wc()
+	}()
+	var execs atomic.Int64
+	job := &fnJob{f: func() { execs.Add(1) }}
+	key := quartz.NewJobKey("held")
+	t := &holdTrigger{interval: int64(3 * time.Millisecond), inside: make(chan struct{}, 1), release: make(chan struct{})}
+	must(s.ScheduleJob(quartz.NewJobDetail(job, key), t))
+	time.Sleep(10 * time.Millisecond) // let it fire a few times
+	t.mu.Lock()
+	t.hold = true
+	t.mu.Unlock()
+	select {
+	case <-t.inside:
+	case <-time.After(2 * time.Second):
+		return nil, false
+	}
+	// the loop is inside NextFireTime now, between its Pop and its Push
+	done := make(chan error, 1)
+	go func() {
+		switch api {
+		case "clear":
+			done <- s.Clear()
+		case "delete":
+			done <- s.DeleteJob(key)
+		default:
+			done <- s.PauseJob(key)
+		}
+	}()
+	early := false
+	var apiErr error
+	select {
+	case apiErr = <-done:
+		early = true
+	case <-time.After(15 * time.Millisecond):
+	}
+	close(t.release)
+	if !early {
+		select {
+		case apiErr = <-done:
+		case <-time.After(3 * time.Second):
+			return []string{fmt.Sprintf("C08 %s did not return within 3 s after the loop's step had finished (mode %d)", api, mode)}, true
+		}
+	}
+	desc := fmt.Sprintf("%s called while the execution loop was asking the job's trigger for the next fire time (between its Pop and its Push), mode %d", api, mode)
+	if apiErr != nil {
+		// the call did not see the job (it was out of the queue): with an atomic step this cannot happen for delete / pause
+		if api != "clear" {
+			viol = append(viol, fmt.Sprintf("C08 %s returned %q for a job that is scheduled and firing: the call ran in the middle of the loop's pop/classify/push step [%s]", api, apiErr.Error(), desc))
+		}
+		return viol, true
+	}
+	c0, e0 := t.n(), execs.Load()
+	time.Sleep(40 * time.Millisecond)
+	c1, e1 := t.n(), execs.Load()
+	if e1 == e0+1 { // the one execution that had been dequeued before the call may still start
+		e1 = e0
+	}
+	keys, _ := s.GetJobKeys()
+	if c1 != c0 {
+		viol = append(viol, fmt.Sprintf("C08 the job's trigger was asked %d more time(s) in the 40 ms after %s had returned successfully [%s]", c1-c0, api, desc))
+	}
+	// (execution STARTS are judged in blocking mode only: elsewhere every execution dequeued before the call got the lock may
+	// still start afterwards, and the loop may run several catch-up steps before a waiting call gets the lock — decision 7)
+	if e1 != e0 && mode == 0 {
+		viol = append(viol, fmt.Sprintf("C03 %d execution(s) of the job started in the 40 ms after %s had returned successfully: a job that is no longer scheduled (or is paused) was run [%s]", e1-e0, api, desc))
+	}
+	if api != "pause" && len(keys) != 0 {
+		viol = append(viol, fmt.Sprintf("C08 the registry still lists %d job(s) after %s had returned successfully: the loop pushed the job back [%s]", len(keys), api, desc))
+	}
+	return viol, true
+}
+
+type fnJob struct{ f func() }
+
+func (j *fnJob) Execute(context.Context) error { j.f(); return nil }
+func (j *fnJob) Description() string           { return "fn" }
